@@ -352,8 +352,9 @@ func uniqFilter(a []any) (result []any) {
 		return false
 	}
 	for _, item := range a {
-		if !seen(item) {
-			result = append(result, item)
+		// an element may be a Drop: it counts as its ToLiquid value
+		if !seen(values.ToLiquid(item)) {
+			result = append(result, values.ToLiquid(item))
 		}
 	}
 	return
